@@ -9,7 +9,7 @@ from . import lib
 from .codec import ARITY, rec
 
 
-def validate(pid, cases, M, name="rel", workers=16, timeout=3000, chunk=20000):
+def validate(pid, cases, M, name="rel", workers=None, timeout=3000, chunk=20000):
     """cases: [{"n", "a": [gate records], "bs": [{"b": [...], "rel", "perm"}]}]
     -> (verdicts {(tid0, s0): clause}, emitted {tid0: ring matrix}, stats).  tid0/s0 are 0-based."""
     verdicts, emitted = {}, {}
